@@ -22,7 +22,7 @@ Record cls := { c_name : str; c_params : list (str * ty * option val) }.
 Record link := { l_src : list key; l_tgt : key; l_fn : option nat }.
 
 Inductive tkind :=
-| TgtPlain                         (* target action is not class-typed: the action itself is replaced *)
+| TgtPlain                         (* target is an argument itself (plain or a whole class-typed one): the action is replaced *)
 | TgtInit (dest child : key).      (* target = dest ++ child, child = init_args :: _, dest class-typed (or list of) *)
 
 Record alink := { al_link : link; al_kind : tkind; al_srcs : list (key * list decl) }.
@@ -111,22 +111,23 @@ Definition add_link (p : parser) (l : link) : res parser :=
       | None => Err EOther
       | Some d =>
           let leaf := key_eqb (d_key d) (l_tgt l) in
-          if is_class_kind (d_kind d) then
-            if leaf then Err EUnmodelled                   (* whole class argument as target: not modelled *)
-            else if is_prefix (d_key d ++ [init_args]) (l_tgt l)
-                    && Nat.ltb (S (length (d_key d))) (length (l_tgt l))
+          (* the target IS an argument (plain, or a whole class-typed argument: valid_target_leaf): its action is
+             replaced by the link action; set_target_value assigns cfg[target] (for a class-typed one after
+             target_action._check_type(value), whose verdict validate repeats) *)
+          if leaf
+          then Ok {| p_acts := mark_linked (p_acts p) (l_tgt l);
+                     p_req := remove_key (l_tgt l) (p_req p);
+                     p_links := p_links p ++ [{| al_link := l; al_kind := TgtPlain; al_srcs := srcs |}] |}
+          else if is_class_kind (d_kind d) then
+            if is_prefix (d_key d ++ [init_args]) (l_tgt l)
+               && Nat.ltb (S (length (d_key d))) (length (l_tgt l))
             then Ok {| p_acts := p_acts p;
                        p_req := remove_key (l_tgt l) (p_req p);
                        p_links := p_links p ++ [{| al_link := l;
                                                    al_kind := TgtInit (d_key d) (skipn (length (d_key d)) (l_tgt l));
                                                    al_srcs := srcs |}] |}
             else Err EOther                                (* Target key expected to start with dest.init_args. *)
-          else
-            if leaf
-            then Ok {| p_acts := mark_linked (p_acts p) (l_tgt l);
-                       p_req := remove_key (l_tgt l) (p_req p);
-                       p_links := p_links p ++ [{| al_link := l; al_kind := TgtPlain; al_srcs := srcs |}] |}
-            else Err EUnmodelled                           (* key below a non-class argument: not modelled *)
+          else Err EUnmodelled                             (* key below a non-class argument: not modelled *)
       end
   end.
 
